@@ -35,10 +35,13 @@ access(all) resource R {}
 access(all) entitlement E1
 access(all) entitlement E2
 access(all) entitlement E3
+access(all) entitlement E4
+access(all) entitlement E5
 access(all) entitlement mapping M { E1 -> E2 }
 access(all) fun mkE(_ i: UInt8): E { return E(rawValue: i)! }
 access(all) fun mkF(_ i: UInt8): F { return F(rawValue: i)! }
 access(all) fun mkG(_ i: Int16): G { return G(rawValue: i)! }
+access(all) fun eid(_ n: String): String { let s = Type<S>().identifier; return s.slice(from: 0, upTo: s.length - 1).concat(n) }
 `
 
 var loc18 = common.StringLocation("test")
@@ -93,6 +96,7 @@ type gv struct {
 	cmp   bool // comparable kind
 	hash  bool // hashable kind
 	desc  string
+	nocoq bool // kind outside the Coq model (function types): laws, oracle and scripts only
 }
 
 type numKind struct {
@@ -306,7 +310,7 @@ type authT struct {
 }
 
 type styT struct {
-	kind string // prim comp iface opt var const dict ref capnone cap inter range
+	kind string // prim comp iface opt var const dict ref capnone cap inter range fun(a: parameter, b: return)
 	name string
 	a, b *styT
 	n    int64
@@ -415,8 +419,22 @@ func (t *styT) static() interpreter.StaticType {
 		return interpreter.NewIntersectionStaticType(nil, ts)
 	case "range":
 		return interpreter.NewInclusiveRangeStaticType(nil, t.a.static())
+	case "fun":
+		p := interpreter.MustConvertStaticToSemaType(t.a.static(), inter18)
+		ret := interpreter.MustConvertStaticToSemaType(t.b.static(), inter18)
+		ft := sema.NewSimpleFunctionType(sema.FunctionPurityImpure,
+			[]sema.Parameter{{Label: sema.ArgumentLabelNotRequired, Identifier: "p0", TypeAnnotation: sema.NewTypeAnnotation(p)}},
+			sema.NewTypeAnnotation(ret))
+		return interpreter.NewFunctionStaticType(nil, ft)
 	}
 	panic(t.kind)
+}
+
+func (t *styT) hasFun() bool {
+	if t == nil {
+		return false
+	}
+	return t.kind == "fun" || t.a.hasFun() || t.b.hasFun()
 }
 
 func (t *styT) coq() string {
@@ -449,6 +467,8 @@ func (t *styT) coq() string {
 		return "(SInter [" + strings.Join(parts, ";") + "])"
 	case "range":
 		return "(SRange " + t.a.coq() + ")"
+	case "fun":
+		return "(SPrim [])" // function types are outside the Coq model; values containing them are never sent to Coq
 	}
 	panic(t.kind)
 }
@@ -471,6 +491,8 @@ func (t *styT) canon() string {
 		ids := append([]string{}, t.ids...)
 		sort.Strings(ids)
 		return "inter(" + strings.Join(ids, "+") + ")"
+	case "fun":
+		return "fun(" + t.a.canon() + ";" + t.b.canon() + ")"
 	}
 	panic(t.kind)
 }
@@ -537,8 +559,73 @@ func (t *styT) src() string {
 		if s := sub(t.a); s != "" {
 			return "InclusiveRange<" + s + ">"
 		}
+	case "fun":
+		if p, q := sub(t.a), sub(t.b); p != "" && q != "" {
+			return "fun(" + p + "): " + q
+		}
 	}
 	return ""
+}
+
+// srcRT renders the type as a Cadence EXPRESSION of type Type that builds it with the run-time type
+// constructors (ReferenceType, OptionalType, ...) where possible; "" if it cannot be written.
+func (t *styT) srcRT() string {
+	static := func() string {
+		if s := t.src(); s != "" {
+			return "Type<" + s + ">()"
+		}
+		return ""
+	}
+	ids := func(xs []string) string {
+		parts := make([]string, len(xs))
+		for i, x := range xs {
+			parts[i] = fmt.Sprintf("eid(%q)", x)
+		}
+		return "[" + strings.Join(parts, ", ") + "]"
+	}
+	sub := func(x *styT) string {
+		if x == nil {
+			return ""
+		}
+		return x.srcRT()
+	}
+	switch t.kind {
+	case "opt":
+		if s := sub(t.a); s != "" {
+			return "OptionalType(" + s + ")"
+		}
+	case "var":
+		if s := sub(t.a); s != "" {
+			return "VariableSizedArrayType(" + s + ")"
+		}
+	case "const":
+		if s := sub(t.a); s != "" {
+			return fmt.Sprintf("ConstantSizedArrayType(type: %s, size: %d)", s, t.n)
+		}
+	case "dict":
+		if k, v := sub(t.a), sub(t.b); k != "" && v != "" {
+			return "DictionaryType(key: " + k + ", value: " + v + ")!"
+		}
+	case "cap":
+		if s := sub(t.a); s != "" {
+			return "CapabilityType(" + s + ")!"
+		}
+	case "fun":
+		if p, q := sub(t.a), sub(t.b); p != "" && q != "" {
+			return "FunctionType(parameters: [" + p + "], return: " + q + ")"
+		}
+	case "inter":
+		if len(t.ids) > 0 {
+			return "IntersectionType(types: " + ids(t.ids) + ")!"
+		}
+	case "ref":
+		if t.auth.kind == "set" && !t.auth.disj && len(t.auth.es) > 0 {
+			if s := sub(t.a); s != "" {
+				return "ReferenceType(entitlements: " + ids(t.auth.es) + ", type: " + s + ")!"
+			}
+		}
+	}
+	return static()
 }
 
 func hasResource(t *styT) bool {
@@ -562,6 +649,26 @@ func subsetPerm(r *lib.Rng, xs []string) []string {
 	return out
 }
 
+var entPool = []string{"E1", "E2", "E3", "E4", "E5"}
+
+// pickEnts draws n distinct entitlements in random order, avoiding `avoid` as far as the pool allows.
+func pickEnts(r *lib.Rng, n int, avoid []string) []string {
+	bad := map[string]bool{}
+	for _, a := range avoid {
+		bad[a] = true
+	}
+	var pref, rest []string
+	for _, e := range shuffled(r, entPool) {
+		if bad[e] {
+			rest = append(rest, e)
+		} else {
+			pref = append(pref, e)
+		}
+	}
+	all := append(pref, rest...)
+	return shuffled(r, all[:n])
+}
+
 func genAuth(r *lib.Rng) authT {
 	switch r.Intn(6) {
 	case 0:
@@ -569,11 +676,7 @@ func genAuth(r *lib.Rng) authT {
 	case 1:
 		return authT{kind: "map"}
 	}
-	es := subsetPerm(r, []string{"E1", "E2", "E3"})
-	if len(es) == 0 {
-		es = []string{"E2"}
-	}
-	return authT{kind: "set", disj: r.Chance(1, 3), es: es}
+	return authT{kind: "set", disj: r.Chance(1, 3), es: pickEnts(r, 1+r.Intn(3), nil)}
 }
 
 func genSty(r *lib.Rng, depth int) *styT {
@@ -674,14 +777,105 @@ func typeValue(t *styT) gv {
 	if s := t.src(); s != "" {
 		g.lit = "Type<" + s + ">()"
 	}
+	g.nocoq = t.hasFun()
 	return g
+}
+
+// typeValueRT: the same value, but written in scripts with the run-time type constructors
+func typeValueRT(t *styT) gv {
+	g := typeValue(t)
+	if s := t.srcRT(); s != "" {
+		g.lit = s
+		g.desc += " via " + s
+	}
+	return g
+}
+
+// authTriple: type values around reference types whose entitlement sets overlap, are reordered, disjoint,
+// of the other kind, or chained (A~B, B~C, A!~C), nested inside optional / array / dictionary / capability /
+// function types; 3 or 4 values.
+func authTriple(r *lib.Rng) []gv {
+	disj := r.Chance(1, 3)
+	n := 1 + r.Intn(3)
+	base := pickEnts(r, n, nil)
+	overlap := func(s []string) []string { // same size, one member replaced by an outsider
+		out := shuffled(r, s)
+		out[r.Intn(len(out))] = pickEnts(r, 1, s)[0]
+		return shuffled(r, out)
+	}
+	s1 := overlap(base)
+	var sets []authT
+	mk := func(es []string, d bool) authT { return authT{kind: "set", disj: d, es: es} }
+	switch r.Intn(6) {
+	case 0: // chain: base ~ s1 ~ s2, base and s2 as far apart as possible
+		s2 := shuffled(r, s1)
+		for i, e := range s2 {
+			for _, b := range base {
+				if e == b {
+					s2[i] = pickEnts(r, 1, append(append([]string{}, base...), s2...))[0]
+				}
+			}
+		}
+		sets = []authT{mk(base, disj), mk(s1, disj), mk(s2, disj), mk(shuffled(r, base), disj)}
+	case 1: // reordered / overlapping / disjoint
+		sets = []authT{mk(base, disj), mk(shuffled(r, base), disj), mk(s1, disj), mk(pickEnts(r, n, base), disj)}
+	case 2: // other kind, sub- and superset
+		sub := base[:1+r.Intn(len(base))]
+		sup := append(append([]string{}, base...), pickEnts(r, 1, base)[0])
+		sets = []authT{mk(base, disj), mk(shuffled(r, base), !disj), mk(shuffled(r, sub), disj), mk(shuffled(r, sup), disj)}
+	case 3: // map / unauthorized next to sets
+		sets = []authT{mk(base, disj), {kind: "map"}, {kind: "unauth"}, mk(s1, disj)}
+	default:
+		sets = []authT{mk(base, disj), mk(s1, disj), mk(overlap(s1), disj), mk(shuffled(r, s1), disj)}
+	}
+	if r.Bool() {
+		sets = sets[:3]
+	}
+	inner := lib.Pick(r, []*styT{{kind: "comp", name: "S"}, {kind: "prim", name: "Int"}, {kind: "inter", ids: []string{"I1"}},
+		{kind: "inter", ids: []string{"I2", "I1"}}, {kind: "prim", name: "AnyStruct"}, {kind: "var", a: &styT{kind: "prim", name: "String"}}})
+	wrap := func(t *styT) *styT { return t }
+	wrappers := []func(*styT) *styT{
+		func(t *styT) *styT { return t },
+		func(t *styT) *styT { return &styT{kind: "opt", a: t} },
+		func(t *styT) *styT { return &styT{kind: "var", a: t} },
+		func(t *styT) *styT { return &styT{kind: "const", a: t, n: 2} },
+		func(t *styT) *styT { return &styT{kind: "dict", a: &styT{kind: "prim", name: "String"}, b: t} },
+		func(t *styT) *styT {
+			if t.kind != "ref" { // capabilities borrow reference types only
+				return t
+			}
+			return &styT{kind: "cap", a: t}
+		},
+		func(t *styT) *styT { return &styT{kind: "fun", a: t, b: &styT{kind: "prim", name: "Int"}} },
+		func(t *styT) *styT { return &styT{kind: "fun", a: &styT{kind: "prim", name: "Int"}, b: t} },
+		func(t *styT) *styT {
+			return &styT{kind: "ref", auth: authT{kind: "unauth"}, a: &styT{kind: "var", a: t}}
+		},
+	}
+	w1, w2 := lib.Pick(r, wrappers), lib.Pick(r, wrappers)
+	switch r.Intn(3) {
+	case 0:
+		wrap = w1
+	case 1:
+		wrap = func(t *styT) *styT { return w2(w1(t)) }
+	}
+	var out []gv
+	for _, a := range sets {
+		t := wrap(&styT{kind: "ref", auth: a, a: inner})
+		if r.Bool() {
+			out = append(out, typeValueRT(t))
+		} else {
+			out = append(out, typeValue(t))
+		}
+	}
+	return out
 }
 
 // ---- optionals and arrays -------------------------------------------------------------------------
 
 func someValue(in gv) gv {
 	g := gv{coq: "VSome (" + in.coq + ")", iv: interpreter.NewUnmeteredSomeValueNonCopying(in.iv), canon: "some(" + in.canon + ")",
-		strs: in.strs, fam: "opt", desc: "Some(" + in.desc + ")"}
+		strs: in.strs, fam: "opt", desc: "Some(" + in.desc + ")", nocoq: in.nocoq}
 	if in.lit != "" && !strings.HasSuffix(in.typ, "?") && in.typ != "" {
 		g.lit, g.typ = in.lit, in.typ+"?"
 	}
@@ -729,7 +923,9 @@ func arrValue(elemT *styT, constant bool, elems []gv) gv {
 
 func genTriple(r *lib.Rng) []gv {
 	pool := genPool(r)
-	switch r.Intn(20) {
+	switch r.Intn(24) {
+	case 20, 21, 22, 23:
+		return authTriple(r)
 	case 0, 1, 2, 3: // numbers: same kind neighbours, or the same mathematical value in another kind
 		k := lib.Pick(r, numKinds)
 		z := k.random(r)
@@ -909,7 +1105,7 @@ func (x r18) coq() string {
 func catch18(f func() r18) (o r18) {
 	defer func() {
 		if r := recover(); r != nil {
-			o = r18{kind: "err", err: lib.Classify(r)}
+			o = r18{kind: "err", err: lib.Classify(r) + fmt.Sprintf(" (%.200v)", r)}
 		}
 	}()
 	return f()
@@ -1083,6 +1279,11 @@ func c18(sum *lib.Summary) {
 	fail := func(key, what string, d map[string]any) { sum.Fail(key, what, d) }
 
 	runTriple := func(t []gv, idx int, toCoq, doScripts bool) {
+		for _, v := range t {
+			if v.nocoq {
+				toCoq = false
+			}
+		}
 		n := len(t)
 		desc := make([]string, n)
 		for i, v := range t {
@@ -1182,7 +1383,7 @@ func c18(sum *lib.Summary) {
 		// dictionary: insert the hashable values of the triple in order, then look all of them up
 		var keys []gv
 		for _, v := range t {
-			if v.hash {
+			if v.hash && !v.nocoq { // type values of function types are not storable, hence not usable as keys
 				keys = append(keys, v)
 			}
 		}
@@ -1419,6 +1620,18 @@ func fixed18() [][]gv {
 		{typeValue(I("I1", "I2", "I3")), typeValue(I("I3", "I1", "I2")), typeValue(I("I2", "I3", "I1"))},
 		{typeValue(I()), typeValue(I("I1")), typeValue(&styT{kind: "iface", name: "I1"})},
 		{typeValue(ref(false, "E1", "E2")), typeValue(ref(false, "E2", "E1")), typeValue(ref(true, "E1", "E2"))},
+		// overlapping entitlement sets: equality must stay transitive and agree with the hash input
+		{typeValue(ref(false, "E1", "E2")), typeValueRT(ref(false, "E1", "E3")), typeValue(ref(false, "E3", "E4")), typeValueRT(ref(false, "E2", "E1"))},
+		{typeValue(ref(true, "E1", "E2")), typeValue(ref(true, "E2", "E3")), typeValue(ref(true, "E3", "E1"))},
+		{typeValue(ref(false, "E1", "E2", "E3")), typeValueRT(ref(false, "E3", "E4", "E5")), typeValue(ref(false, "E5", "E1", "E2"))},
+		{typeValueRT(&styT{kind: "opt", a: ref(false, "E4", "E5")}), typeValue(&styT{kind: "opt", a: ref(false, "E5", "E1")}), typeValueRT(&styT{kind: "opt", a: ref(false, "E5", "E4")})},
+		{typeValue(&styT{kind: "cap", a: ref(false, "E1", "E2")}), typeValueRT(&styT{kind: "cap", a: ref(false, "E2", "E3")}), typeValue(&styT{kind: "cap", a: ref(false, "E2", "E1")})},
+		{typeValue(&styT{kind: "dict", a: &styT{kind: "prim", name: "String"}, b: &styT{kind: "var", a: ref(false, "E1", "E2")}}),
+			typeValueRT(&styT{kind: "dict", a: &styT{kind: "prim", name: "String"}, b: &styT{kind: "var", a: ref(false, "E1", "E5")}}),
+			typeValueRT(&styT{kind: "dict", a: &styT{kind: "prim", name: "String"}, b: &styT{kind: "var", a: ref(false, "E2", "E1")}})},
+		{typeValue(&styT{kind: "fun", a: ref(false, "E1", "E2"), b: &styT{kind: "prim", name: "Int"}}),
+			typeValueRT(&styT{kind: "fun", a: ref(false, "E1", "E3"), b: &styT{kind: "prim", name: "Int"}}),
+			typeValueRT(&styT{kind: "fun", a: ref(false, "E2", "E1"), b: &styT{kind: "prim", name: "Int"}})},
 		{typeValue(ref(false, "E1")), typeValue(ref(true, "E1")), typeValue(&styT{kind: "ref", auth: authT{kind: "unauth"}, a: S})},
 		{typeValue(&styT{kind: "ref", auth: authT{kind: "map"}, a: S}), typeValue(ref(false, "E1", "E2", "E3")), typeValue(ref(false, "E3", "E2", "E1"))},
 		{typeValue(&styT{kind: "opt", a: &styT{kind: "ref", auth: authT{kind: "set", es: []string{"E2", "E1"}}, a: I("I2", "I1")}}),
